@@ -322,3 +322,10 @@ mod tests {
         assert!(NodeStatus::Bad < NodeStatus::Questionable);
     }
 }
+
+// Verification harnesses (compiled only by `cargo kani`; inert otherwise).
+#[cfg(kani)]
+#[allow(dead_code, unused_imports)]
+mod verif {
+    include!(concat!(env!("BTDHT_VERIF"), "/harness/node.rs"));
+}
